@@ -6,8 +6,17 @@ Tie     : extracted notification-id tuple + correspondence of (number of respons
           inline in order with the arguments the callee saw, tasks handed to the pool) between model and real code.
 Monitor : notifications never answered; per-callable invocation counters == 1 (0 when the method is unknown or
           the arguments do not bind), read after the real ThreadPool has been drained.
-The composition with the thread-pool model (every enqueued task is executed exactly once) is C09's part.
+Stage 2 : the pooled path under the deterministic scheduler (harness/poolpaths.py): the real dispatcher with a real
+          ThreadPool(max 1..3, min 0..max) as notification pool, 1-2 managed request threads calling `_marshaled_dispatch`
+          (notifications alone and in batches, all id shapes, methods that return / raise / do not exist / get bad
+          arguments / block on a gate), every interleaving of request threads and pool workers being eligible (random,
+          PCT, bounded-preemption DFS in the thorough tier).  Monitor from the property text: no response object for a
+          notification, every notification's callable has run exactly once when the pool is drained (zero for unknown
+          methods / unbindable arguments), never twice, none lost, no deadlock.
+The composition with the thread-pool model is `C04_once_pooled` / `C04_pooled_eventually_runs` (C04.lean), instantiating
+C09's theorems (`C09_at_most_once`, `C09_exec_count_phase`, `C09_eventually_begins`) on the task the enqueue creates.
 """
+import poolpaths as pp
 import servercases as sc
 
 REQUIRED_THEOREMS = [
@@ -23,8 +32,18 @@ REQUIRED_THEOREMS = [
     "C04_pool_only_for_notifications",
     "C04_task_runs_callable_once",
     "C04_task_runs_custom_once",
+    "C04_once_pooled",
+    "C04_once_pooled_custom",
+    "C04_pooled_eventually_runs",
+    "C09_at_most_once",
+    "C09_exec_count_phase",
+    "C09_eventually_begins",
     "C04_gen_notifIds",
     "C04_gen_exceptPathSilencesNotification",
+    "C04_gen_poolRetireRule",
+    "C04_gen_poolGrowthRule",
+    "C04_gen_poolPendingStores",
+    "C04_gen_poolUnlockedAccesses",
 ]
 
 MONITORS = [("notification", sc.monitor_c04)]
@@ -38,6 +57,19 @@ def run(ctx):
     em = {"single": 0.8, "batch": 2.0, "damaged": 0.1, "descriptor": 0.4, "noise": 0.2, "pool": 3.0, "randreg": 0.6, "post": 0.02,
           "exhaustive_batch": True}
     sc.standard_run(ctx, "C04", MONITORS, sc.proj_notif, em, RULE)
+    pooled_stage(ctx)
+
+
+def pooled_stage(ctx):
+    """Second stage: the pooled path on the real ThreadPool under harness/sched.py (budget: ~7 s quick)."""
+    pp.explore(ctx, "C04", "pooled-notifications", pp.gen_notif_program, pp.small_notif_programs, 650, 10000, 300)
+    ctx.rule += ("; stage 2: random request-thread programs (1-2 threads, notifications of every id shape alone and in batches, "
+                 "returning / raising / unknown / unbindable / gate-blocked methods, mixed with calls) x notification pools "
+                 "max 1..3, min 0..max x schedules (uniform, sticky, PCT depth 1-3; thorough: bounded-preemption DFS over tiny "
+                 "programs) on the REAL dispatcher + ThreadPool under harness/sched.py, monitored at the drain")
+    ctx.assumptions.append("C04 stage 2: harness/sched.py shims of threading.Event/RLock/Lock/Thread and queue.Queue stand for "
+                           "CPython's; time-outs expire only at quiescence; no lockstep with the Lean pool model in this stage "
+                           "(that correspondence is C09-C11's, on the same ThreadPool code)")
 
 
 def search(ctx):
@@ -46,4 +78,6 @@ def search(ctx):
 
 
 def replay(payload):
+    if (payload.get("case") or {}).get("stage") in pp.RUNNERS:
+        return pp.replay(payload, "C04")
     return sc.replay_case(payload, MONITORS)
